@@ -15,9 +15,16 @@ open Model.Dialect Spec.Dialect Gen
     text (the version comment is a whole 10-character token, readable in the raw bytes when there is no signature), both
     values of `force_default_encoding` and every default-encoding situation, the library selects exactly the documented
     encoding, version, CIF_WRONG_ENCODING report and byte-order-mark report — provided the cascade's last branch honours
-    `default_encoding_name` (repair of G4) or no name was given. -/
+    `default_encoding_name` (repair of G4) or no name was given, and the raw magic test accepts after the magic code
+    everything the documentation allows there (`followersCover`: the end of the input, LF, CR, blank, tab).
+
+    What `consistent h` says about the terminator of the version comment: when the first ten raw bytes are the CIF 2.0 magic
+    code, the byte after them (`h.rawNext`) is absent or CIF whitespace — LF, CR (a CR LF terminator shows its CR there),
+    blank or tab — and then, and only then, the decoded text shows a `#\#CIF_2.0` comment token (`h.decoded = .v2`).  Every
+    one of these six terminators is a separate dimension of the exhaustive correspondence table. -/
 theorem C11_table (prefer : Int) (force : Bool) (cfg : Cfg) (h : Header)
-    (hc : consistent h) (ht : h.noText = false) (hcfg : cfg.fallbackNamed = true ∨ cfg.namedGiven = false) :
+    (hc : consistent h) (ht : h.noText = false) (hcfg : cfg.fallbackNamed = true ∨ cfg.namedGiven = false)
+    (hcov : followersCover cfg) :
     (select prefer force cfg h).encoding
         = (spec (classify prefer) h.decoded h.sig h.bomFirst force cfg.namedGiven cfg.namedIsUtf8 cfg.systemIsUtf8).encoding ∧
     (select prefer force cfg h).version
@@ -39,7 +46,7 @@ theorem C11_table (prefer : Int) (force : Bool) (cfg : Cfg) (h : Header)
         | none => rfl
         | some e => exact absurd (Or.inr (by simp [hsig])) hfs
       subst hf
-      exact table_raw _ cfg h ht hs hc hcfg
+      exact table_raw _ cfg h ht hs hc hcfg hcov
   have he : (select prefer force cfg h).encoding = specEncoding force h.sig (specVersion (classify prefer) h.decoded) cfg.namedGiven := by
     simp only [select]; rw [stage1_eq_stage1c]; exact key.1
   have hv : (select prefer force cfg h).version = (specVersion (classify prefer) h.decoded : Int) := by
@@ -51,9 +58,19 @@ theorem C11_table (prefer : Int) (force : Bool) (cfg : Cfg) (h : Header)
     cases classify prefer <;> cases h.decoded <;> simp [specVersion]
 
 /-- the tree's cascade honours `default_encoding_name` in its last branch and tests the byte after the raw magic code
-    (repairs of G4 / G3, /repo a4ae335 / c96f901); re-read from ciffile.c on every run -/
+    (repairs of G4 / G3, /repo a4ae335 / c96f901), accepting there the end of the input and each of LF, CR, blank, tab;
+    re-read from ciffile.c on every run -/
 theorem C11_tree_link :
-    ParseConsts.fallbackUsesNamedDefault = true ∧ ParseConsts.rawMagicChecksFollowingByte = true := by decide
+    ParseConsts.fallbackUsesNamedDefault = true ∧ ParseConsts.rawMagicChecksFollowingByte = true ∧
+    (∀ n b s8, followersCover (treeCfg n b s8)) := by
+  refine ⟨by decide, by decide, fun n b s8 => ?_⟩
+  cases n <;> cases b <;> cases s8 <;> decide
+
+/-- every terminator of the property's table is one the raw test must accept, and a non-blank is none -/
+theorem C11_terminators :
+    (∀ t : Terminator, commentEndsHere t.next = true) ∧ commentEndsHere (some 120) = false := by
+  refine ⟨fun t => ?_, by decide⟩
+  cases t <;> decide
 
 /-- **C11, the table, for the tree as it is**: no hypothesis on the default encoding any more -/
 theorem C11_table_tree (prefer : Int) (force : Bool) (namedGiven namedIsUtf8 systemIsUtf8 : Bool) (h : Header)
@@ -67,17 +84,19 @@ theorem C11_table_tree (prefer : Int) (force : Bool) (namedGiven namedIsUtf8 sys
     (select prefer force (treeCfg namedGiven namedIsUtf8 systemIsUtf8) h).bomDisallowed
         = (spec (classify prefer) h.decoded h.sig h.bomFirst force namedGiven namedIsUtf8 systemIsUtf8).bomDisallowed :=
   C11_table prefer force (treeCfg namedGiven namedIsUtf8 systemIsUtf8) h hc ht (Or.inl C11_tree_link.1)
+    (C11_tree_link.2.2 namedGiven namedIsUtf8 systemIsUtf8)
 
 /-- **C11, version only** (no hypothesis on the default encoding): the version is the documented one for every
     `prefer_cif2 : Int` -/
-theorem C11_version (prefer : Int) (force : Bool) (cfg : Cfg) (h : Header) (hc : consistent h) (ht : h.noText = false) :
+theorem C11_version (prefer : Int) (force : Bool) (cfg : Cfg) (h : Header) (hc : consistent h) (ht : h.noText = false)
+    (hcov : followersCover cfg) :
     (select prefer force cfg h).version = (specVersion (classify prefer) h.decoded : Int) := by
   -- the version does not depend on which default the last branch names
-  have h1 := (C11_table prefer force { cfg with fallbackNamed := true } h hc ht (Or.inl rfl)).2.1
+  have h1 := (C11_table prefer force { cfg with fallbackNamed := true } h hc ht (Or.inl rfl) hcov).2.1
   have : (select prefer force cfg h).version = (select prefer force { cfg with fallbackNamed := true } h).version := by
-    obtain ⟨sig, rs, r2, r2w, r7, dec, bom, nt⟩ := h
-    obtain ⟨ng, n8, s8, fb, mw⟩ := cfg
-    simp only [select, stage1, stage2, notUtf8, dflt]
+    obtain ⟨sig, rs, r2, rn, r7, dec, bom, nt⟩ := h
+    obtain ⟨ng, n8, s8, fb, mw, mf, me⟩ := cfg
+    simp only [select, stage1, stage2, notUtf8, dflt, followerPass, followerOk]
     cases force <;> cases sig <;> simp <;> (repeat' split) <;> simp_all
   rw [this, h1]; simp [spec]
 
@@ -133,28 +152,39 @@ theorem C11_same_text_any_signature {α : Type} (parse : Int → Str → α) (te
 /-- finding G4 (tree before the repair): with the last branch passing NULL, a named default is not used although no signature
     was detected and CIF 1.1 was selected -/
 theorem C11_cex_named_default_ignored :
-    let h : Header := ⟨none, false, false, true, false, .none, false, false⟩
-    (select 0 false ⟨true, false, true, false, false⟩ h).encoding = .system ∧
+    let h : Header := ⟨none, false, false, some 10, false, .none, false, false⟩
+    (select 0 false ⟨true, false, true, false, false, [], false⟩ h).encoding = .system ∧
     (spec (classify 0) h.decoded h.sig h.bomFirst false true false true).encoding = .named ∧ consistent h := by decide
 
 /-- finding G3 (tree before the repair): the raw magic test does not look at the byte after the magic code — `#\#CIF_2.0x`
     without signature and prefer_cif2 = 0 is taken for CIF 2.0, the same text with a signature for CIF 1.1 -/
 theorem C11_cex_magic_not_token :
-    let hNoSig : Header := ⟨none, false, true, false, true, .none, false, false⟩
-    let hSig : Header := ⟨some .utf8, false, false, false, false, .none, true, false⟩
-    (select 0 false ⟨false, true, true, true, false⟩ hNoSig).version = 2 ∧
-    (select 0 false ⟨false, true, true, true, false⟩ hSig).version = 1 ∧
-    (select 0 false ⟨false, true, true, true, true⟩ hNoSig).version = 1 := by decide
+    let hNoSig : Header := ⟨none, false, true, some 120, true, .none, false, false⟩
+    let hSig : Header := ⟨some .utf8, false, false, some 120, false, .none, true, false⟩
+    (select 0 false ⟨false, true, true, true, false, [], false⟩ hNoSig).version = 2 ∧
+    (select 0 false ⟨false, true, true, true, false, [], false⟩ hSig).version = 1 ∧
+    (select 0 false ⟨false, true, true, true, true, [32, 9, 10, 13], true⟩ hNoSig).version = 1 := by decide
+
+/-- a raw test that forgets one of the terminators (here CR: the first line of the file ends in CR or CR LF) departs from the
+    table: a consistent CIF 2.0 header without signature is parsed as CIF 1.1 for prefer_cif2 = 0 -/
+theorem C11_cex_terminator_forgotten :
+    let h : Header := ⟨none, false, true, some 13, true, .v2, false, false⟩
+    consistent h ∧
+    (select 0 false ⟨false, true, true, true, true, [32, 9, 10], true⟩ h).version = 1 ∧
+    (select 0 false ⟨false, true, true, true, true, [32, 9, 10, 13], true⟩ h).version = 2 ∧
+    specVersion (classify 0) h.decoded = 2 := by decide
 
 -- non-vacuity --------------------------------------------------------------------------------------------------------
 -- consistent, non-empty headers of every kind exist, and the table is not constant
-example : consistent ⟨none, false, true, true, true, .v2, false, false⟩ := by decide
-example : consistent ⟨none, false, false, true, true, .other, false, false⟩ := by decide
-example : consistent ⟨some .utf16le, true, false, true, false, .none, true, false⟩ := by decide
-example : ¬ consistent ⟨none, false, true, false, true, .none, false, false⟩ := by decide     -- `#\#CIF_2.0x`: outside the theorem
-example : (select 5 false ⟨false, true, true, true, true⟩ ⟨some .utf8, true, false, true, false, .none, true, false⟩).version = 2 := by decide
-example : (select 0 false ⟨false, true, true, true, true⟩ ⟨some .utf8, true, false, true, false, .none, true, false⟩).bomDisallowed = true := by decide
-example : (select 0 false ⟨false, true, true, true, true⟩ ⟨some .utf16be, false, false, true, false, .v2, true, false⟩).wrongEncoding = true := by decide
+example : consistent ⟨none, false, true, some 13, true, .v2, false, false⟩ := by decide        -- magic code, then CR (LF)
+example : consistent ⟨none, false, true, none, true, .v2, false, false⟩ := by decide           -- magic code, end of input
+example : consistent ⟨none, false, false, some 10, true, .other, false, false⟩ := by decide
+example : consistent ⟨some .utf16le, true, false, none, false, .none, true, false⟩ := by decide
+example : ¬ consistent ⟨none, false, true, some 120, true, .none, false, false⟩ := by decide   -- `#\#CIF_2.0x`: outside the theorem
+example : followersCover ⟨false, true, true, true, true, [32, 9, 10, 13], true⟩ ∧ ¬ followersCover ⟨false, true, true, true, true, [32, 9, 10], true⟩ := by decide
+example : (select 5 false ⟨false, true, true, true, true, [32, 9, 10, 13], true⟩ ⟨some .utf8, true, false, none, false, .none, true, false⟩).version = 2 := by decide
+example : (select 0 false ⟨false, true, true, true, true, [32, 9, 10, 13], true⟩ ⟨some .utf8, true, false, none, false, .none, true, false⟩).bomDisallowed = true := by decide
+example : (select 0 false ⟨false, true, true, true, true, [32, 9, 10, 13], true⟩ ⟨some .utf16be, false, false, none, false, .v2, true, false⟩).wrongEncoding = true := by decide
 example : scanDisallowed (fun _ => false) 0x4E2D = false ∧ firstCharDisallowed (fun _ => false) 0x4E2D = true := by decide
 
 end CifModel
